@@ -117,3 +117,23 @@ claim("C13",
       "Trusts the declared taint propagation for external callees; panics inside dependencies, memory/stack exhaustion and debug-only "
       "overflow checks are not decided.",
       "DESIGN.md §5 C13")
+
+claim("C08",
+      "ordering by MIR edge dominance across awaits + path predicates of the read-back + atomic-replace shape + sibling file naming",
+      "Decides the ordering clauses that discharge the crash-point quantifier: in every iteration attest_key is reachable only after "
+      "store_key and the read-back check_key succeeded on the very key returned by acquire_key, the in-memory publication only after "
+      "attest_key succeeded, acquire_key is unreachable when the local fetch succeeded, the read-back compares guid and key of the file "
+      "named by the key's guid, store and fetch name the same file, and json_write_to_file writes a temp sibling then renames it onto the "
+      "final name on every Ok path and never opens the final name for writing.",
+      "Trusts rename(2) atomicity and page-cache survival of a killed process (OS), host protocol behaviour, rustc MIR + extractor.",
+      "DESIGN.md §5 C08")
+
+claim("C09",
+      "failed-poll reachability within a loop iteration + sibling agreement over wireserver|imds|hostga + control-dependence edges",
+      "Decides explicit sentences of the statement and the pairings it presupposes (NOT convergence over arbitrary histories): a failed "
+      "status poll reaches no state setter in its iteration and every post-poll setter is behind the Ok edge; get_status validates before "
+      "Ok; each endpoint's rule id, rules, mode, actor variable, actor message and redirect constants are wired to the same endpoint "
+      "(declared exception: HostGA mode = WireServer mode); redirect updates and clear_key hang on the state-changed edge; the key block "
+      "is entered iff the host names no key or a different one.",
+      "Trusts rustc MIR + extractor; convergence after arbitrary histories and faults is not decided.",
+      "DESIGN.md §5 C09")
